@@ -355,7 +355,7 @@ example : (St.run { nodes := exampleSt.nodes }
      .allocate { id := "b", size := 30, aff := 1, types := 0, strict := false, prio := 1024, created := 2 },
      .allocate { id := "g", size := 30, aff := 1, types := 0, strict := false, prio := 16384, created := 3 }]).zoneFree 1 = 10 := by rfl
 
-theorem step_placement' (s : St) (hw : WF s) (op : Op) : WF (s.step op) := by
+theorem step_keeps_wf (s : St) (hw : WF s) (op : Op) : WF (s.step op) := by
   cases op with
   | allocate r => exact allocate_wf s hw r
   | getOffer r => exact (every_operation_keeps_wf s hw).2.1 r
@@ -442,7 +442,7 @@ theorem run_strict (nodes : List Node) (hu : NodesUniq { nodes := nodes }) (ops 
       intro s hw h hs
       have hrun : s.run (op :: ops) = (s.step op).run ops := rfl
       rw [hrun]
-      exact ih (s.step op) (step_placement' s hw op) (step_strict s hw h op hs.1) hs.2
+      exact ih (s.step op) (step_keeps_wf s hw op) (step_strict s hw h op hs.1) hs.2
   exact (key ops _ (hinv_init nodes).wf ⟨hu, by intro q hq; cases hq⟩ hsafe).2
 
 /-- what is and is not covered for re-allocations (the statement, for the record): a successful
